@@ -66,6 +66,15 @@ CHECKS = {
              must_probe=['leak_histories_checked', 'workspace_queries', 'illegal_argument_calls', 'workspace_too_small_returns', 'refactorizations', 'factored_calls'],
              assumptions=["accounting covers every malloc/calloc/realloc/free issued inside a library call (link-time wrappers); thread accounting is the simulator's own (created = finished = joined, checked on every call of every profile)",
                           "runs that end in the abort path are not leak-checked (the process is gone)"]),
+ 'C18': dict(seed_offset=18, level='exploration',
+             rule=("each case = (prefix, probe): the prefix is one or two generated cases of other profiles (call histories with refactorization and factor reuse, leak histories with error returns, expert-driver calls, singular inputs, "
+                   "undersized tunables) on other sizes, precisions and memory modes, executed in a long-lived worker that has already run all earlier seeds; the probe is a first-time factorization/solve generated from the same seed. "
+                   "The probe's H_obs (every hook event and the bit patterns of info, permutations, factors, X) must equal the H_obs of the same probe executed as the first library call of a pristine process (forked from a zygote that never ran library code). "
+                   "Non-trivial: probe with >= 2 worker threads, >= 2 columns and a scheduling decision; distinct = distinct (H_sched, H_obs) of the probe"),
+             props=['C18'],
+             batches=[dict(profile='carry', flavour='plain', quick=16000, thorough=800000)],
+             must_probe=['carry_probes_compared', 'carry_prefix_cases'],
+             assumptions=["bit-identity is demanded for every thread count, because the simulator makes the probe a pure function of its seed; a mismatch is first re-examined with two pristine processes (differing there = machinery fault, exit 2)"]),
  'C09': dict(seed_offset=9, level='exploration', rule=RULE_A, props=['C09'],
              batches=[dict(profile='strf', flavour='plain', quick=60000, thorough=3000000), dict(profile='ssv', flavour='plain', quick=20000, thorough=1000000)],
              must_probe=['factorizations_checked', 'numbering_ne_storage_order']),
